@@ -42,8 +42,17 @@ func TriggerPrototype(mask, n, timeIdx int) func() execution.Trigger {
 	return t.Materialize(context.Background(), physical.Environment{})
 }
 
-// NDTime returns time.Unix(s, 0) and s, with s symbolic in [0, dom).
+// ConcreteTimes switches NDTime from one symbolic instant (ordering decided by solver queries at
+// every comparison) to a forked Choice over the dom instants (comparisons are concrete). Both
+// range over exactly the same instants; harnesses set it from their TCONC parameter.
+var ConcreteTimes bool
+
+// NDTime returns time.Unix(s, 0) and s, with s ranging over [0, dom).
 func NDTime(name string, dom int) (time.Time, int64) {
+	if ConcreteTimes {
+		s := int64(zzverif.Choice(name, dom))
+		return time.Unix(s, 0), s
+	}
 	s := zzverif.Int64(name)
 	zzverif.Assume(zzverif.And(s >= 0, s < int64(dom)))
 	return time.Unix(s, 0), s
@@ -113,7 +122,8 @@ func (m *trigModel) poll() [2]bool {
 // own), 1 = node discipline (every KeyReceived / WatermarkReceived is followed by one Poll, as
 // CustomTriggerGroupBy does) where additionally no key may be returned twice by a single
 // (non-multi) trigger. TZ 1 = each key time is forked over the Local / UTC representation of the
-// same instant (time.Unix(s,0) vs time.Unix(s,0).UTC()), 0 = always time.Unix(s,0).
+// same instant (time.Unix(s,0) vs time.Unix(s,0).UTC()), 0 = always time.Unix(s,0). TCONC 1 =
+// instants are forked concretely instead of symbolic (same domain).
 func VerifC17Trigger() {
 	L := zzverif.Param("L")
 	mask := zzverif.Param("TRIG")
@@ -121,6 +131,7 @@ func VerifC17Trigger() {
 	tdom := zzverif.Param("TDOM")
 	mode := zzverif.Param("MODE")
 	tz := zzverif.Param("TZ")
+	ConcreteTimes = zzverif.Param("TCONC") == 1
 	if mask == 0 {
 		mask = 1 + zzverif.Choice("trig", 7)
 	}
